@@ -543,3 +543,117 @@ Section Generate.
       exact (select_row_inj row1 row2 values v NDv (Hl _ I1) (Hl _ I2) E1 E2).
   Qed.
 End Generate.
+
+(* ---------------------------------------------------------------- when it succeeds -- *)
+(* The theorems above are conditional on build_gsd not raising.  It does not raise for at least two
+   factors whenever the reduction does not exceed any level count (so they are not vacuous); with a
+   single factor (or none) the assertion of _map_partitions_to_design always fails, and a reduction
+   larger than the level counts can leave a design empty (ValueError), as in the docstring. *)
+Lemma res_all_map_succeeds {X Y} (g : X -> res Y) l :
+  (forall a, In a l -> exists d, g a = Ok d) -> exists ds, res_all (map g l) = Ok ds.
+Proof.
+  induction l as [|a l IH]; intros H; [exists []; reflexivity|]. simpl.
+  destruct (H a (or_introl eq_refl)) as (d & ->).
+  destruct (IH (fun b I => H b (or_intror I))) as (ds & ->). exists (d :: ds). reflexivity.
+Qed.
+
+Lemma list_min_zero l : In 0 l -> list_min l = 0.
+Proof.
+  destruct l as [|a t]; [intros []|]. simpl list_min. intros I.
+  assert (a = 0 \/ In 0 t) as H by (destruct I as [E|I]; [left; exact E|right; exact I]).
+  clear I. revert a H. induction t as [|b t IH]; intros a H; simpl.
+  - destruct H as [E|[]]. exact E.
+  - destruct H as [E|[E|I]].
+    + rewrite (IH a (or_introl E)). apply Nat.min_0_r.
+    + subst b. reflexivity.
+    + rewrite (IH a (or_intror I)). apply Nat.min_0_r.
+Qed.
+
+Lemma list_max_ge l x : In x l -> x <= list_max l.
+Proof.
+  intros I. pose proof (proj1 (list_max_le l (list_max l)) (le_n _)) as F.
+  rewrite Forall_forall in F. exact (F x I).
+Qed.
+
+Lemma oa_arrays_nonempty r k : 0 < r -> forall i, i < r ->
+  exists w, In w (nth i (make_orthogonal_arrays (make_latin_square r) (S k)) []).
+Proof.
+  intros Hr. induction k as [|k IH]; intros i Lt.
+  - exists [i]. unfold make_orthogonal_arrays. simpl Nat.iter. rewrite latin_first_row by exact Hr.
+    rewrite nth_map_seq by exact Lt. left. reflexivity.
+  - destruct (IH i Lt) as (w & Iw). exists (0 :: w).
+    pose proof (oa_inv_arrays r k Hr) as (LA & _).
+    unfold make_orthogonal_arrays in *. replace (S (S k) - 1) with (S k) by lia.
+    replace (S k - 1) with k in * by lia. simpl Nat.iter.
+    rewrite oa_step_nth by assumption. apply in_aug. exists 0, w.
+    rewrite Nat.add_0_r, Nat.mod_small by exact Lt. repeat split; [exact Hr|exact Iw].
+Qed.
+
+Lemma oa_arrays_heads r k : 0 < r -> forall i c, i < r -> c < r ->
+  exists w, In (c :: w) (nth i (make_orthogonal_arrays (make_latin_square r) (S (S k))) []).
+Proof.
+  intros Hr i c Li Lc. assert ((i + c) mod r < r) as Lm by (apply Nat.mod_upper_bound; lia).
+  destruct (oa_arrays_nonempty r k Hr _ Lm) as (w & Iw). exists w.
+  pose proof (oa_inv_arrays r k Hr) as (LA & _).
+  unfold make_orthogonal_arrays in *. replace (S (S k) - 1) with (S k) by lia.
+  replace (S k - 1) with k in * by lia. simpl Nat.iter.
+  rewrite oa_step_nth by assumption. apply in_aug. exists c, w. repeat split; [exact Lc|exact Iw].
+Qed.
+
+Lemma sets_nonempty r : 2 <= r -> forall row levels, Forall (fun L => r <= L) levels ->
+  Forall (fun c => c < r) row -> existsb (@is_nil nat) (sets_of r row levels) = false.
+Proof.
+  intros Hr. induction row as [|p row IH]; intros levels HL F; [reflexivity|].
+  destruct levels as [|L levels]; [reflexivity|].
+  inversion HL as [|? ? HL1 HL']. inversion F as [|? ? Lp F']. simpl.
+  rewrite (IH levels HL' F'), orb_false_r.
+  assert (In (S p) (part r L p)) as I.
+  { apply in_part; [exact Hr|lia|exact Lp|]. split; [lia|].
+    simpl. rewrite Nat.sub_0_r. apply Nat.mod_small. exact Lp. }
+  destruct (part r L p); [destruct I|reflexivity].
+Qed.
+
+Lemma map_partitions_succeeds levels r oa : 2 <= r -> Forall (fun L => r <= L) levels ->
+  (forall row, In row oa -> length row = length levels /\ Forall (fun c => c < r) row) ->
+  oa <> [] -> In 0 (concat oa) -> In (r - 1) (concat oa) ->
+  exists d, map_partitions_to_design (make_partitions levels r) oa = Ok d.
+Proof.
+  intros Hr HL Hoa NE I0 Ir. unfold map_partitions_to_design.
+  assert (length (make_partitions levels r) = r) as E1
+    by (unfold make_partitions; rewrite map_length, seq_length; reflexivity).
+  assert (list_max (concat oa) = r - 1) as E2.
+  { apply Nat.le_antisymm; [|apply list_max_ge; exact Ir]. apply list_max_le.
+    apply Forall_forall. intros c Ic. apply in_concat in Ic. destruct Ic as (row & Irow & Ic).
+    destruct (Hoa row Irow) as [_ F]. rewrite Forall_forall in F. specialize (F c Ic). lia. }
+  rewrite E1, E2, (list_min_zero _ I0). replace (r - 1 + 1) with r by lia. rewrite Nat.eqb_refl. simpl andb. cbv iota.
+  destruct oa as [|row rest]; [contradiction|]. simpl flat_map.
+  destruct (Hoa row (or_introl eq_refl)) as [L F].
+  pose proof (sets_eq levels r row 0 F L) as S0. simpl skipn in S0. rewrite S0.
+  rewrite (sets_nonempty r Hr row levels HL F). simpl. eexists. reflexivity.
+Qed.
+
+Theorem gsd_succeeds : forall levels r,
+  2 <= length levels -> 2 <= r -> Forall (fun L => r <= L) levels ->
+  exists ds, build_gsd levels r r = Ok ds.
+Proof.
+  intros levels r Hk Hr HL. unfold build_gsd.
+  destruct (r <=? 1) eqn:E1; [apply Nat.leb_le in E1; lia|].
+  destruct (r =? 0) eqn:E2; [apply Nat.eqb_eq in E2; lia|]. simpl orb. cbv iota.
+  unfold gsd_designs.
+  destruct (length levels) as [|[|k]] eqn:Ek; [lia|lia|].
+  set (A := make_orthogonal_arrays _ _).
+  pose proof (oa_inv_arrays r (S k) ltac:(lia)) as (LA & Rng & _). fold A in LA, Rng.
+  destruct (res_all_map_succeeds
+              (fun oa => match map_partitions_to_design (make_partitions levels r) oa with
+                         | Ok d => Ok (map (map Nat.pred) d) | Err e => Err e end) A) as (ds & ->).
+  - intros oa Ioa. destruct (In_nth A oa [] Ioa) as (i & Li & <-). rewrite LA in Li.
+    destruct (oa_arrays_heads r k ltac:(lia) i 0 Li ltac:(lia)) as (w0 & I0).
+    destruct (oa_arrays_heads r k ltac:(lia) i (r - 1) Li ltac:(lia)) as (w1 & I1). fold A in I0, I1.
+    destruct (map_partitions_succeeds levels r (nth i A [])) as (d & ->); try assumption.
+    + intros row I. rewrite Ek. exact (Rng i row Li I).
+    + intros E. rewrite E in I0. destruct I0.
+    + apply in_concat. exists (0 :: w0). split; [exact I0|left; reflexivity].
+    + apply in_concat. exists (r - 1 :: w1). split; [exact I1|left; reflexivity].
+    + eexists. reflexivity.
+  - simpl. eexists. reflexivity.
+Qed.
